@@ -49,6 +49,13 @@ def gen(W):
     sc["cut"] = W.draw(400)
     sc["extra_after"] = W.choice([0, 300, 5000])
     sc["seed"] = W.draw(1 << 20)
+    # a quarter of the runs are scheduled adversarially (2 workers, random walk / PCT over source lines):
+    # 'zero application calls' must not depend on the worker being slower than the reader
+    sc["threads"] = 1
+    sc["sched"], sc["trace"] = {"kind": "rtb"}, "none"
+    if W.chance(0.25):
+        sc["threads"] = 2
+        sc["sched"], sc["trace"] = common.draw_sched(W, walk_p=0.6, pct_p=0.3)
     if sc["shape"] == "mutated_message":
         m = reqgen.gen_message(W, 0)
         reqgen.apply_mutation(m, reqgen.pick_mutation(W, m), W)
@@ -223,10 +230,11 @@ def run_one(tapes, tier, scenario=None):
         exp["must_refuse"] = False
         exp["may_refuse"] = True
         exp["may_wait"] = True
-    knobs = dict(threads=1, channel_request_lookahead=0, recv_bytes=sc["recv_bytes"],
+    knobs = dict(threads=sc.get("threads", 1), channel_request_lookahead=0, recv_bytes=sc["recv_bytes"],
                  max_request_header_size=sc["max_header"], max_request_body_size=sc["max_body"],
                  inbuf_overflow=sc["inbuf_overflow"], clear_untrusted_proxy_headers=False)
-    sim = Simulation(tapes, knobs=knobs, net=NetConfig(), sched={"kind": "rtb"}, horizon=60.0, step_cap=400000)
+    sim = Simulation(tapes, knobs=knobs, net=NetConfig(), sched=sc.get("sched", {"kind": "rtb"}), trace=sc.get("trace", "none"),
+                     horizon=60.0, step_cap=400000)
     k = sim.k
     app = ScriptedApp(sim, {}, default={"chunks": [b"ok"], "cl": 2, "read_input": True, "keep_environ": True})
     sim.build(app)
